@@ -386,8 +386,25 @@ func init() {
 			"is stepped with the same vote records and evidence and compared after every commit: who is jailed (never with fewer than the maximum misses in the last window; always when the maximum is reached inside one window from activation), jail time, growth of the slashed totals exactly equal to one slash per offence, tombstoned validators never regain status, power or membership, jailed validators are released only by a lock after the jail time with all thresholds met. " +
 			"Non-trivial = every committed block; distinct = (jails, evidence items, absentees in the block) and evidence age classes.",
 		Assume: []string{"'active' is read from the chain's own status field (its correctness is C13's subject)", "the proposing validator is never absent"},
-		Cases:  func(tier string) int { return map[string]int{"quick": 48, "thorough": 300}[tier] },
-		Run:    func(c *vc.Ctx, i int) { c14History(c, i) },
+		Cases:  func(tier string) int { return map[string]int{"quick": 48 + 8, "thorough": 300 + 60}[tier] },
+		Run: func(c *vc.Ctx, i int) {
+			if base := map[string]int{"quick": 48, "thorough": 300}[c.Tier]; i >= base {
+				combinedHistory(c, i-base, "c14x", c.Pick(70, 160), func(cfg *lockCfg) {
+					cfg.TargetPunished, cfg.EvidenceAges = true, true
+					cfg.W.Absent, cfg.W.Evidence = 40, 9
+					cfg.Cons = func(cp *cmttypes.ConsensusParams) {
+						cp.Evidence.MaxAgeNumBlocks = 4
+						cp.Evidence.MaxAgeDuration = 15 * time.Second
+					}
+				}, func(h *lockHist) (func(), func()) {
+					mon := newC14Mon(h)
+					h.crashFn = func(cr *world.ErrCrash) { c.Inconclusive("FinalizeBlock failed (reported under C13): %v", cr) }
+					return mon.afterBlock, nil
+				})
+				return
+			}
+			c14History(c, i)
+		},
 	})
 }
 
